@@ -7,7 +7,7 @@ From CGV Require Import Base.PyBase Base.PyVal Base.NxGraph Resolve.Bonding Reso
      Resolve.GraphOps Hydro.SquashDefs Hydro.HydroDefs.
 From CGV Require Hydro.Hydrogens Hydro.Squash.
 From CGV Require Import Compose.GraphAdj Compose.CutModel Compose.CutPos Compose.CutTables Compose.CutDisc Compose.CutSkeleton Compose.CutWf
-     Compose.CutHydrogens Compose.ComposeFlat Compose.CutSpecCheck Compose.RebuildWf Compose.CutSorted Compose.CutRunCheck Compose.CutRunSound.
+     Compose.CutHydrogens Compose.ComposeFlat Compose.CutSpecCheck Compose.RebuildWf Compose.CutSorted Compose.CutRunCheck Compose.CutRunSound Compose.SortIdentity Compose.LayeredStep.
 Import ListNotations.
 Open Scope Z_scope.
 
@@ -71,6 +71,12 @@ Definition C06_layered_base := layered_base.
 Definition C06_compose_flat := compose_flat.
 Definition C06_perm_cut_wf := perm_cut_wf.
 
+(** C06, composition for the graphs the first resolve() returns (squash, sort, annotate threaded) *)
+Definition C06_coarse_step_returned := coarse_step_returned.
+Definition C06_compose_flat_returned := compose_flat_returned.
+Definition C12_sort_in_order := sort_in_order.
+Definition C06_skeleton_rebuilt := skeleton_rebuilt.
+
 (** the executable tests of the hypotheses are sound *)
 Theorem C01_wf_cut_test_sound : forall C, wf_cutb C = true -> wf_cut C.
 Proof. exact wf_cutb_sound. Qed.
@@ -93,5 +99,8 @@ Print Assumptions C01_run_check_sound.
 Print Assumptions C01_run_fail_zero.
 Print Assumptions C06_layered_base.
 Print Assumptions C06_compose_flat.
+Print Assumptions C06_coarse_step_returned.
+Print Assumptions C06_compose_flat_returned.
+Print Assumptions C12_sort_in_order.
 Print Assumptions C01_base_test_sound.
 Print Assumptions C01_template_test_sound.
